@@ -14,6 +14,8 @@ C={
   MODEL_NOTE+" Hash sizes are capped at 800 fields (the emulator's collision-free table is quadratic).","runtime monitoring: differential testing against an executable reference model (reply + state + inertness oracle per step)"),
 "C05":("exploration","Random set command sequences over a 6-member universe (operands drawn with replacement incl. missing and wrong-typed ones, STORE destination among the operands half of the time, SMOVE with source = destination, all SRANDMEMBER counts and SINTERCARD limits) run in lock step with the reference model: replies equal the exact mathematical result, every operand and destination is re-read after every step, failures are inert.",
   MODEL_NOTE,"runtime monitoring: differential testing against an executable reference model (reply + state + inertness oracle per step)"),
+"C06":("exploration","Exhaustive command x key-type matrix (about 180 command templates x 5 key types, 9 with TTL variants in thorough) on fresh emulators, 30 ways of removing the last element of an aggregate followed by EXISTS/TYPE/KEYS/SCAN/DBSIZE probes, and random keyspace sequences (RENAME/COPY/KEYS globs/SORT options ...) - all in lock step with the reference model; every error reply is checked for inertness against the SUT's own previous dump and every dump for empty aggregates and KEYS/EXISTS/DBSIZE consistency.",
+  MODEL_NOTE,"runtime monitoring: differential testing against an executable reference model + SUT-only invariants (inertness on error, no empty aggregates, KEYS/EXISTS/DBSIZE agreement)"),
 "C13":("exploration","Hostile byte strings, generated commands (every command token x arity 0..7 x boundary arguments x key types) and MULTI sequences are sent to the live emulator over TCP; exit status, a canary connection, strict reply framing and a sentinel ECHO decide crash / stall / unanswered / mis-framed. Sampling, not enumeration.",
   "Trusts the harness's strict RESP parser, the 3-4 s watchdogs on a loaded machine, and the 12 GiB address-space limit as the definition of 'resource exhaustion'.","runtime monitoring: liveness/canary monitor + framing monitor over generated hostile inputs (child process per shard)"),
 }
